@@ -406,6 +406,21 @@ theorem listStep_ok {m0 : View} {st0 : Nat} {wc : WC} (h : Good m0 st0 wc) (lo :
       · intro _
         show (wc.beginFull.notifyConverter.processList kvs).status ≠ stWait
         rw [l.status]; decide
+  | pollStop =>
+    simp only
+    have l := processList_ok hb []
+    exact ⟨l.good.of_eq rfl rfl rfl rfl, fun _ => Or.inl rfl, fun c => by cases c⟩
+
+theorem isPollStop_eq (lo : ListOut) (h : lo.isPollStop = true) : lo = .pollStop := by
+  cases lo <;> simp [ListOut.isPollStop] at h ⊢
+
+/-- The terminal polling List: the invariant holds and the cache is InSync. -/
+theorem listStep_pollStop_ok {m0 : View} {st0 : Nat} {wc : WC} (h : Good m0 st0 wc) :
+    Good m0 st0 (listStep wc .pollStop).1 ∧ (listStep wc .pollStop).1.status = stInSync := by
+  have l := processList_ok (notifyConverter_good (beginFull_good h)) []
+  unfold listStep
+  simp only
+  exact ⟨l.good.of_eq rfl rfl rfl rfl, l.status⟩
 
 theorem watchStep_ok {m0 : View} {st0 : Nat} {wc : WC} (h : Good m0 st0 wc) (full : Bool) (wo : WatchOut) :
     Good m0 st0 (watchStep wc full wo).1 ∧ (watchStep wc full wo).1.status = wc.status := by
@@ -434,6 +449,17 @@ theorem resyncLoop_ok {m0 : View} {st0 : Nat} (fin : List KV × Nat) :
     intro wc full lists watches hg ho w hw
     unfold resyncLoop at hw
     simp only at hw
+    by_cases hstop : ((full || decide (wc.rev = 0)) && (lists.headD (ListOut.ok fin.1 fin.2)).isPollStop) = true
+    · simp only [hstop, if_true, Option.some.injEq] at hw
+      have hf : (full || decide (wc.rev = 0)) = true := (Bool.and_eq_true _ _ ▸ hstop).1
+      have hlo := isPollStop_eq _ (Bool.and_eq_true _ _ ▸ hstop).2
+      rw [if_pos hf, hlo] at hw
+      subst hw
+      have := listStep_pollStop_ok hg
+      exact ⟨this.1, by rw [this.2]; decide⟩
+    have hstop' : ((full || decide (wc.rev = 0)) && (lists.headD (ListOut.ok fin.1 fin.2)).isPollStop) = false := by
+      simpa using hstop
+    simp only [hstop', Bool.false_eq_true, if_false] at hw
     -- the list part
     have hr : ListStepOK m0 st0
         (if (full || decide (wc.rev = 0)) = true then listStep wc (lists.headD (ListOut.ok fin.1 fin.2))
